@@ -102,8 +102,13 @@ AckRefused ==
   /\ Log([a |-> "ack", ty |-> "PUBLISH", id |-> 1, c |-> ""], [ok |-> FALSE, out |-> NoOut])
 
 \* Acked: the answered ping first, then the maximal prefix of entries in a terminal state
-RECURSIVE TermPrefix(_)
-TermPrefix(s) == IF s = <<>> \/ Head(s).state \notin Terminal THEN 0 ELSE 1 + TermPrefix(Tail(s))
+RECURSIVE TermPrefixR(_)
+TermPrefixR(s) == IF s = <<>> \/ Head(s).state \notin Terminal THEN 0 ELSE 1 + TermPrefixR(Tail(s))
+\* (the same without recursion for queues of tens of thousands of entries, where Tail copies too much)
+TermPrefix(s) == IF Len(s) <= 5000 THEN TermPrefixR(s)
+                 ELSE IF Head(s).state \notin Terminal THEN 0
+                 ELSE LET bad == {i \in 1..Len(s) : s[i].state \notin Terminal} IN
+                      IF bad = {} THEN Len(s) ELSE (CHOOSE i \in bad : \A j \in bad : i <= j) - 1
 
 Acked ==
   LET n == TermPrefix(q)
